@@ -74,6 +74,7 @@ func (s *Store) AddMessage(message storage.Message) (id string, err error) {
 		date:    message.Date(),
 		subject: message.Subject(),
 	}
+	var evicted []*Message
 	s.withMailbox(message.Mailbox(), true, func(mb *mbox) {
 		// Generate message ID.
 		mb.last++
@@ -86,13 +87,27 @@ func (s *Store) AddMessage(message storage.Message) (id string, err error) {
 		if s.cap > 0 {
 			// Enforce cap.
 			for len(mb.messages) > s.cap {
-				delete(mb.messages, strconv.Itoa(mb.first))
+				key := strconv.Itoa(mb.first)
+				if old := mb.messages[key]; old != nil {
+					evicted = append(evicted, old)
+					delete(mb.messages, key)
+				}
 				mb.first++
 			}
 		}
 	})
+	s.capEvicted(evicted)
 	s.enforcerDeliver(m)
 	return id, err
+}
+
+// capEvicted reports messages removed by the mailbox cap to the size enforcer and to listeners, as
+// for any other removal.
+func (s *Store) capEvicted(evicted []*Message) {
+	for _, m := range evicted {
+		s.enforcerRemove(m)
+		s.extHost.Events.AfterMessageDeleted.Emit(message.MakeMetadata(m))
+	}
 }
 
 // GetMessage gets a mesage.
